@@ -42,6 +42,29 @@ class C05(PropBase):
     quick_per_shard = 150
     thorough_per_shard = 6000
 
+    def enumerate(self, tier):
+        """ALL frame sequences up to a bounded length over the representative alphabet, x prefix on/off x blocksize x max_frame_size"""
+        import itertools
+        depth = 2 if tier == 'quick' else 4
+        addrs = [{'mode': 0, 'txid': 0x123, 'rxid': 0x456},
+                 {'mode': 3, 'txid': 0x123, 'rxid': 0x456, 'target_address': 0x55, 'source_address': 0xAA}]
+        cfgs = [(a, bs, mfs) for a in addrs for bs in (0, 1, 2) for mfs in (15, 4095)]
+        if tier != 'quick':
+            deep = cfgs[:1] + cfgs[7:8]          # depth 4 only for two configurations, depth 3 for all
+        for (a, bs, mfs) in cfgs:
+            alpha = alphabet(None, a, mfs)
+            d = depth if tier == 'quick' else (4 if (a, bs, mfs) in deep else 3)
+            for n in range(1, d + 1):
+                for seq in itertools.product(range(len(alpha)), repeat=n):
+                    ops = [{'op': 'layer', 'i': 0, 'addr': a, 'params': {'blocksize': bs, 'max_frame_size': mfs}}]
+                    for k in seq:
+                        fid, ext, data = gen.rx_match_frame(a, alpha[k])
+                        ops.append({'op': 'frame', 'i': 0, 'id': fid, 'ext': ext, 'data': data})
+                        ops.append({'op': 'process', 'i': 0})
+                    ops.append({'op': 'recv', 'i': 0})
+                    ops.append({'op': 'recv', 'i': 0})
+                    yield {'ops': ops}
+
     def scenario(self, rng, tier):
         mode = rng.choice([0, 0, 1, 2, 3, 4, 5, 6])
         a, _ = gen.rand_addr_pair(rng, mode=mode, asym_prob=0.1)
